@@ -72,7 +72,24 @@ fn no_panic<T>(r: &OpReport<T>, what: &str, f: &str, d: Dmg) -> CaseResult {
     Ok(())
 }
 
+fn tick(what: &str) {
+    if std::env::var("VERIF_TIMING").is_ok() {
+        thread_local! { static LAST: std::cell::Cell<Option<std::time::Instant>> = const { std::cell::Cell::new(None) }; }
+        LAST.with(|l| {
+            let now = std::time::Instant::now();
+            if let Some(prev) = l.get() {
+                let dt = now - prev;
+                if dt.as_millis() > 500 {
+                    eprintln!("C10 tick {what}: {dt:?}");
+                }
+            }
+            l.set(Some(now));
+        });
+    }
+}
+
 fn check_damage(w: &World, pre: &format::RawArchive, cx: &Cx, f: &str, d: Dmg, n: &mut u32) -> CaseResult {
+    tick("enter");
     let class = damage::classify(f);
     let post = format::scan(&w.arch);
     let ids = ops::list_band_ids(&w.arch, &None);
@@ -94,6 +111,7 @@ fn check_damage(w: &World, pre: &format::RawArchive, cx: &Cx, f: &str, d: Dmg, n
         * (pre.bands.values().map(|b| b.all_entries().len()).sum::<usize>()
             + post.bands.values().map(|b| b.all_entries().len()).sum::<usize>())
         + 64;
+    tick("scan+ids");
     for (id, band) in &pre.bands {
         // listing
         let l = ops::list_entries(&w.arch, &None, &Sel::Band(*id), "/", &[], total_entries + 5);
@@ -112,6 +130,7 @@ fn check_damage(w: &World, pre: &format::RawArchive, cx: &Cx, f: &str, d: Dmg, n
                 d.name()
             );
         }
+        tick("listing");
         // restore
         *n += 1;
         let dest = cx.dir("r").join(format!("b{n}"));
@@ -120,12 +139,37 @@ fn check_damage(w: &World, pre: &format::RawArchive, cx: &Cx, f: &str, d: Dmg, n
         // Does this version still open?  (head parses, as judged independently)
         let opens = matches!(post.bands.get(id).map(|b| &b.head), Some(FileState::Ok(v)) if v.get("start_time").map(|x| x.is_i64()).unwrap_or(false))
             && r.result.is_ok();
+        tick("restore");
         if opens && band.head.present_nonempty() {
             let snap = tree::snapshot(&dest);
+            tick("snapshot");
             let reported = r.reported_error();
             let reference = format::ref_listing(pre, *id);
             let kinds: std::collections::BTreeMap<&str, &str> =
                 reference.iter().map(|(e, _)| (e.apath.as_str(), e.kind.as_str())).collect();
+            // the paths named (as `Apath("...")`) by the errors restore reported, each in its
+            // debug-escaped form as printed
+            let mut named_paths: std::collections::HashSet<String> = std::collections::HashSet::new();
+            for m in &r.monitor_errors {
+                let mut rest = m.as_str();
+                while let Some(i) = rest.find("Apath(\"") {
+                    let body = &rest[i + 6..];
+                    let bytes = body.as_bytes();
+                    let mut j = 1;
+                    while j < bytes.len() {
+                        match bytes[j] {
+                            b'\\' => j += 2,
+                            b'"' => break,
+                            _ => j += 1,
+                        }
+                    }
+                    let end = (j + 1).min(body.len());
+                    named_paths.insert(body[..end].to_string());
+                    rest = &body[end..];
+                }
+            }
+            let hunk_of: std::collections::HashMap<&str, &str> =
+                reference.iter().map(|(e, p)| (e.apath.as_str(), p.hunk_relpath.as_str())).collect();
             let last_hunk_of_incomplete: BTreeSet<&str> = pre
                 .bands
                 .values()
@@ -154,12 +198,8 @@ fn check_damage(w: &World, pre: &format::RawArchive, cx: &Cx, f: &str, d: Dmg, n
                 let mut orphaned = false;
                 let mut p = tree::parent_of(&e.apath);
                 while let Some(pp) = p {
-                    if pp != "/" {
-                        if let Some((_, pprov)) = reference.iter().find(|(x, _)| x.apath == pp) {
-                            if pprov.hunk_relpath == f {
-                                orphaned = true;
-                            }
-                        }
+                    if pp != "/" && hunk_of.get(pp) == Some(&f) {
+                        orphaned = true;
                     }
                     p = tree::parent_of(pp);
                 }
@@ -233,7 +273,7 @@ fn check_damage(w: &World, pre: &format::RawArchive, cx: &Cx, f: &str, d: Dmg, n
                         // per file: restored with other bytes than recorded => an error naming it
                         if let Ok(want) = pre.file_bytes(e) {
                             let got = snap.get(&e.apath).and_then(|n| n.content.clone());
-                            let named = r.monitor_errors.iter().any(|m| m.contains(&format!("Apath({:?})", e.apath)));
+                            let named = named_paths.contains(&format!("{:?}", e.apath));
                             if got.as_deref() != Some(&want[..]) {
                                 ensure!(
                                     named,
@@ -260,14 +300,18 @@ fn check_damage(w: &World, pre: &format::RawArchive, cx: &Cx, f: &str, d: Dmg, n
                 }
             }
         }
+        tick("per-entry checks");
         crate::engine::force_remove(&dest);
     }
+    tick("remove");
     for quick in [false, true] {
         let v = ops::validate(&w.arch, &None, quick);
         no_panic(&v, "validate", f, d)?;
     }
+    tick("validate");
     // a new backup, and its restore
     let b = ops::backup(&w.arch, &None, &w.src, ops::Opts { hunk: 3, block: 200, cap: 100 }, &[]);
+    tick("backup");
     no_panic(&b, "backup", f, d)?;
     *n += 1;
     let dest = cx.dir("r").join(format!("n{n}"));
@@ -512,6 +556,33 @@ fn enumerate(_tier: Tier, idx: u32, of: u32, cx: &mut Cx) -> CaseResult {
     }
     crate::engine::force_remove(&sub);
 
+    // --- one index hunk of more than 32 MiB (10 000 files with 3.3 KB paths): one block deleted
+    {
+        crate::engine::heartbeat();
+        let (opts, tree) = crate::probes::big_hunk_tree();
+        let sub = cx.dir("big-hunk");
+        std::fs::create_dir_all(sub.join("r")).unwrap();
+        let cx2 = crate::engine::sub_cx(cx, sub.clone());
+        let w = World::new(&sub, &tree);
+        let b = ops::backup(&w.arch, &None, &w.src, opts, &[]);
+        ensure!(!ops::backup_reported_error(&b), "C10/probe-setup", "{}", b.describe());
+        let mut w = w;
+        w.bands.insert(0, crate::history::BandState::Complete(tree.clone()));
+        let pre = format::scan(&w.arch);
+        if let Some(victim) = pre.blocks.values().next().map(|b| b.relpath.clone()) {
+            ensure!(damage::apply(&w.arch, &victim, Dmg::Delete), "C10/harness/probe", "no damage");
+            crate::engine::heartbeat();
+            let mut n = 0u32;
+            check_damage(&w, &pre, &cx2, &victim, Dmg::Delete, &mut n).map_err(|mut f| {
+                f.signature = format!("{}/probe-big-hunk", f.signature);
+                f
+            })?;
+            cx.add_evals(1);
+            cx.inner_nontrivial += 1;
+        }
+        crate::engine::force_remove(&sub);
+    }
+
     // --- the follow-up backup made by the SAME opened archive value that made the first
     // one (a long-running program): block files deleted or emptied in between
     let m = crate::probes::plain_meta();
@@ -568,7 +639,7 @@ pub fn prop() -> Prop<Case> {
     Prop {
         id: "C10",
         level: "fault_enumeration",
-        rule: "case = archive from a generated history of <=5 ops (incl. interrupted backups; a third of the histories are made to end with a complete backup in small hunks, edits, and a backup killed in the middle) + 3-7 bit-flip positions; inner domain enumerated: every stored file (heads, tails, hunks, blocks; the archive header only for a clean-failure probe) x {delete, truncate 0, truncate half, garbage of equal length} + the generated bit flips in every file (thorough: all pairs; quick: an evenly spaced third, at most 48 per archive, plus — never thinned away — deletion and garbling of the older band's hunk at the resume point of every interrupted version and of the hunk after it, and garbling/halving of that band's head). For each: versions, ls and restore of every band, validate (full, quick), a new backup and its restore must return without panic (listing length bounded by the archive's entry count; per-case watchdog for hangs). In every band whose head still parses and whose restore ran: every file entry of the pre-damage reference listing whose own hunk file and block files are not the damaged file (and, for entries stitched from an older band, whose band's head/tail are not the damaged file) must restore byte- and mtime-exact; an entry stitched from an older band whose head is still present but unreadable must restore exactly or restore must report an error; every file entry whose hunk or block is, by the independent decoder, now missing or undecodable requires that restore reported an error, and a file whose block was damaged and which does not restore to its recorded content must be named by a reported error (per file, so that an error for one file of a shared block does not excuse silently altered siblings) (deletion of the last hunk of an incomplete band is exempt: indistinguishable from an earlier interruption). After delete/truncate-0 a new backup must succeed and restore the source exactly. Non-trivial inner = the damaged file is referenced by at least one version; inner values distinct by construction. Fixed scale probes per run: hunks 9 999, 10 000, 10 001 and 5 of a 10 015-hunk version deleted/garbled/emptied (restore must report, restore everything else exactly, quick validate must report), and three bit flips inside a 6 MiB block; and the follow-up backup made through the same opened archive value as the first one after all / one of its block files were deleted / emptied must complete and restore exactly",
+        rule: "case = archive from a generated history of <=5 ops (incl. interrupted backups; a third of the histories are made to end with a complete backup in small hunks, edits, and a backup killed in the middle) + 3-7 bit-flip positions; inner domain enumerated: every stored file (heads, tails, hunks, blocks; the archive header only for a clean-failure probe) x {delete, truncate 0, truncate half, garbage of equal length} + the generated bit flips in every file (thorough: all pairs; quick: an evenly spaced third, at most 48 per archive, plus — never thinned away — deletion and garbling of the older band's hunk at the resume point of every interrupted version and of the hunk after it, and garbling/halving of that band's head). For each: versions, ls and restore of every band, validate (full, quick), a new backup and its restore must return without panic (listing length bounded by the archive's entry count; per-case watchdog for hangs). In every band whose head still parses and whose restore ran: every file entry of the pre-damage reference listing whose own hunk file and block files are not the damaged file (and, for entries stitched from an older band, whose band's head/tail are not the damaged file) must restore byte- and mtime-exact; an entry stitched from an older band whose head is still present but unreadable must restore exactly or restore must report an error; every file entry whose hunk or block is, by the independent decoder, now missing or undecodable requires that restore reported an error, and a file whose block was damaged and which does not restore to its recorded content must be named by a reported error (per file, so that an error for one file of a shared block does not excuse silently altered siblings) (deletion of the last hunk of an incomplete band is exempt: indistinguishable from an earlier interruption). After delete/truncate-0 a new backup must succeed and restore the source exactly. Non-trivial inner = the damaged file is referenced by at least one version; inner values distinct by construction. Fixed scale probes per run: hunks 9 999, 10 000, 10 001 and 5 of a 10 015-hunk version deleted/garbled/emptied (restore must report, restore everything else exactly, quick validate must report), three bit flips inside a 6 MiB block; one block deleted from a version whose single index hunk exceeds 32 MiB; and the follow-up backup made through the same opened archive value as the first one after all / one of its block files were deleted / emptied must complete and restore exactly",
         assumptions: &[
             "'reported an error' is lenient: Err, Monitor error, or ERROR-level tracing event",
             "hunks altered but still decodable carry only the no-crash obligation",
